@@ -108,7 +108,7 @@ def _plbf_inv(L):
                    Val.is_VNone(h.f(nv, "original_name"))))))
 
 
-c.loop("loop#1", invariant=_plbf_inv, modifies=lambda L: [("list", L.local("nodes"))])
+c.loop("iter:tuple(value)", invariant=_plbf_inv, modifies=lambda L: [("list", L.local("nodes"))])
 
 
 # =============================================================================== breadth_first_search
@@ -163,5 +163,5 @@ def _bfs_body(L):
                 z3.ForAll([k], Implies(And(k >= 0, k < m), h1.lget(q, n0 - 1 + k) == h1.lget(ch, k)))))]
 
 
-c.loop("loop#1", invariant=_bfs_inv, body_ensures=_bfs_body,
+c.loop("while:len(queue) != 0", invariant=_bfs_inv, body_ensures=_bfs_body,
        modifies=lambda L: [("list", L.local("queue"))])
